@@ -195,9 +195,9 @@ func (sc *scenario) configText(id string) string {
 	if sc.Limits {
 		b.WriteString("limits {\n all concurrency 1\n ip concurrency 1\n source concurrency 1\n}\n")
 	}
-	b.WriteString("check {\n &c03chk_" + id + "\n}\n")
+	b.WriteString("check {\n c03chk " + id + "\n}\n")
 	if sc.ModRule != "" {
-		b.WriteString("modify {\n &c03mod_" + id + "\n}\n")
+		b.WriteString("modify {\n c03mod " + id + "\n}\n")
 	}
 	tgt := func(ts ...int) string {
 		s := ""
